@@ -148,6 +148,11 @@ def run(ctx, rep):
         rep.ob('R11.e', FILESTATE_LOAD, 'checksum-over-decrypted-command', bool(ok and dlit and decs[0].bb in lb.reach and cks[0].bb in lb.reachable(decs[0].bb)), cks[0].where(),
                'loader decrypts (under Some(encryptor)) before re-framing and hashing the command')
 
+    # ------------------------------------------------------------ R11.k decrypting journal bytes cannot panic
+    rep.rule('R11.k', 'the checksum of an encrypted entry covers the plaintext, so corrupted bytes reach the decryptor unverified: Aes256GcmEncryptor::decrypt has no unguarded may-panic site (its fixed-position slices of the input are dominated by a length test)', floor=2, analysis='A7')
+    DEC = '<iggy::utils::crypto::Aes256GcmEncryptor as iggy::utils::crypto::Encryptor>::decrypt'
+    check_panics(ctx, rep, 'R11.k', [DEC, 'iggy::utils::crypto::EncryptorKind::decrypt'], {DEC: {'unwrap Aead::decrypt(self.cipher, GenericArray::from_slice(…), ::index(…))': 'after the is_err() early return on the same value'}})
+
     # ------------------------------------------------------------ R11.f lengths from the file are bounded before they size an allocation
     rep.rule('R11.f', 'a length read from the journal file is compared with the file size before it sizes an allocation or a read', floor=2, analysis='A9+A3')
     for c in lb.calls:
@@ -254,7 +259,7 @@ def apply_is_self_serialised(ctx):
 
 def rule_loader_checks(ctx, rep, rid):
     # ------------------------------------------------------------ R11.d loader continuity + checksum
-    rep.rule(rid, 'the loader pushes an entry only after index continuity and checksum equality were tested; the failing edges return an error', floor=2, analysis='A2+A3')
+    rep.rule(rid, 'the loader pushes an entry only after index continuity and checksum equality were tested; the failing edges return an error', floor=5, analysis='A2+A3')
     lb = ctx.fn_body(FILESTATE_LOAD)
     pushes = [c for c in lb.calls if c.matches('std::vec::Vec::push') and is_user_call(c) and len(c.args) > 1
               and expr_has_call(lb.expr_operand(c.args[1]), 'server::state::entry::StateEntry::new')]
@@ -274,6 +279,7 @@ def rule_loader_checks(ctx, rep, rid):
                'push is control-dependent on recomputed checksum == stored checksum' if ok else
                'the push of a loaded entry is not control-dependent on (recomputed checksum == checksum read from the file)')
     cont = None
+    first_zero = False
     for bb, t, e in switch_exprs(lb):
         if t.get('ty') != 'bool' or e[0] != 'bin' or e[1] not in ('Ne', 'Eq'):
             continue
@@ -281,6 +287,13 @@ def rule_loader_checks(ctx, rep, rid):
             prev = is_plus_one(y)
             if prev is not None and prev[0] == 'local' and has_call_last(x, 'read_u64'):
                 cont = (bb, t, e)
+            # `expected = if count == 0 { 0 } else { prev + 1 }; index != expected`
+            py = lb.pexpr_operand(t['op'])
+            if py[0] == 'bin' and has_call_last(x, 'read_u64'):
+                for side in (py[2], py[3]):
+                    if side[0] == 'phi' and any(is_plus_one(a) is not None for a in side[1]) and any(is_const(a, 0) for a in side[1]):
+                        cont = (bb, t, e)
+                        first_zero = True
     if cont is None:
         rep.ob(rid, FILESTATE_LOAD, 'continuity-before-push', False, None, 'no comparison of the index read from the file with (previous index + 1) found in the loader')
     else:
@@ -304,8 +317,35 @@ def rule_loader_checks(ctx, rep, rid):
         if ok_byp:
             be = lb.expr_operand(lb.term(byp[0])['op'])
             ok_byp = be[0] == 'bin' and be[1] in ('Gt', 'Ne', 'Ge') and be[2][0] == 'local' and (is_const(be[3], 0) or is_const(be[3], 1))
-        rep.ob(rid, FILESTATE_LOAD, 'continuity-bypass-only-first', ok_byp, lb.where(bb),
-               'the continuity test is skipped only for the first entry (counter > 0 guard)' if ok_byp else 'the continuity test can be bypassed by something other than the first-entry guard')
+        if first_zero:
+            dom = all(lb.dominates(bb, p.bb) for p in pushes)
+            rep.ob(rid, FILESTATE_LOAD, 'continuity-bypass-only-first', dom, lb.where(bb),
+                   'every entry passes the index test; the expected index of the first entry is 0' if dom else 'an entry can be pushed without passing the index test')
+        else:
+            rep.ob(rid, FILESTATE_LOAD, 'continuity-bypass-only-first', ok_byp, lb.where(bb),
+                   'the continuity test is skipped only for the first entry (counter > 0 guard)' if ok_byp else 'the continuity test can be bypassed by something other than the first-entry guard')
+            rep.ob(rid, FILESTATE_LOAD, 'first-index-is-0', False, lb.where(bb),
+                   'the index of the first entry is not tested (apply always writes 0 first): a journal whose first entries were removed loads as if it were the whole history')
+    if cont is not None and first_zero:
+        rep.ob(rid, FILESTATE_LOAD, 'first-index-is-0', True, lb.where(cont[0]), 'expected index = 0 for the first entry, previous + 1 afterwards')
+    # nothing interprets the content of an entry before its checksum was found equal
+    interp = [c for c in lb.calls if is_user_call(c) and (c.name.endswith('EntryCommand as iggy::bytes_serializable::BytesSerializable>::from_bytes') or c.name.endswith('EntryCommand::from_bytes')
+                                                          or c.name.endswith('StateEntry::new') or (c.name.endswith('>::fmt') and 'StateEntry' in c.name))]
+    if not interp:
+        rep.anchor_lost(rid, 'EntryCommand::from_bytes / StateEntry::new in FileState::load_entries')
+    for c in interp:
+        ck = False
+        for e, truth, lit in bool_literals_at(lb, c.bb):
+            if e[0] == 'bin' and e[1] in ('Ne', 'Eq'):
+                sides = [e[2], e[3]]
+                rec = [expr_has_call(s_, 'StateEntry::calculate_checksum') for s_ in sides]
+                ff = [has_call_last(s_, 'read_u32') and not expr_has_call(s_, 'StateEntry::calculate_checksum') for s_ in sides]
+                if ((rec[0] and ff[1]) or (rec[1] and ff[0])) and ((e[1] == 'Ne' and truth is False) or (e[1] == 'Eq' and truth is True)):
+                    ck = True
+        label = 'EntryCommand::from_bytes' if c.name.endswith('from_bytes') else ('StateEntry::new' if c.name.endswith('::new') else 'StateEntry::fmt')
+        rep.ob(rid, FILESTATE_LOAD, 'checksum-before-' + label, ck, c.where(),
+               'runs only after recomputed checksum == stored checksum' if ck else
+               '%s interprets bytes read from the file before the checksum comparison: a single changed byte can crash the loader (decoders slice by embedded lengths) instead of being reported' % label)
 
     return lb
 
